@@ -376,6 +376,13 @@ func stableStillServed(w *vkit.World) bool {
 	return err == nil && rul.ID() == "stable"
 }
 
+func ruleServed(w *vkit.World, path, id string) bool {
+	req, _ := http.NewRequest("GET", "http://x"+path, nil)
+	rul, err := w.Repo.FindRule(requestcontext.New(req))
+
+	return err == nil && rul.ID() == id
+}
+
 // loadRuleSetBytes feeds bytes to the parser and, if they parse, to the real processor, as a provider does.
 func loadRuleSetBytes(w *vkit.World, contentType string, raw []byte, update bool) (parsed bool, applied bool, err error) {
 	err = guarded(func() {
